@@ -37,8 +37,10 @@ TRUSTED_BASE = [
 ]
 ASSUMPTIONS = [
     'settings.core.event_queue_size >= 1 (with 0 Session.push raises IndexError)',
-    'get + reset_and_wait of one listen call are atomic (no await between them in get_listen) and trigger() reaches the '
-    'sessions handler synchronously (FIRE_AND_FORGET = False)',
+    'get + reset_and_wait of one listen call are atomic (no await between them in get_listen); trigger() reaches the '
+    'sessions handler synchronously whatever the other registered handlers do (translator: per-handler shielding in '
+    'core/events/handlers.py:trigger, SessionsEventHandler.FIRE_AND_FORGET = False; harness: every trace runs under a '
+    'configuration of other handlers that raise / are slow / are fire-and-forget, before and after the sessions handler)',
     '"its caller\'s level" is read as: an event is pending for a session when the level of the session\'s latest listen call '
     'permits it, and it is delivered only if the level of the request that receives it permits it too; pending events the '
     'new caller may not see are discarded',
@@ -121,6 +123,7 @@ class Impl:
         self.slaves = [FakeSlave(i) for i in range(8)]
         self.default_queue_size = settings.core.event_queue_size
         self.orig_reset = sessions.Session.reset_and_wait
+        _define_handlers(core_events)
 
     def classes(self):
         """concrete event classes in translator order: (class, kind) with kind in port/slave/none"""
@@ -205,15 +208,85 @@ def sid_str(sid):
     return 'sess-%d' % sid
 
 
-async def drive(impl, cap, trace, info=None):
+# other event handlers next to the sessions handler (the hub's configuration).  Delivery to listening sessions must not
+# depend on them.  'before' handlers are configured through settings.event_handlers and loaded by core.events.init(), as at
+# start-up (startup.py: init_events() then init_sessions()); 'after' handlers are registered after sessions.init().
+# entry: [kind, mode, period]  kind: sync (FIRE_AND_FORGET = False) | faf;  mode: ok | raise | slow | slow-raise;
+# a raising handler raises on every period-th event it sees
+HANDLER_PRESETS = {
+    'none': {'before': [], 'after': []},
+    'healthy': {'before': [['sync', 'ok', 1], ['faf', 'ok', 1]], 'after': [['sync', 'slow', 1]]},
+    'raise-sync-before': {'before': [['sync', 'raise', 1]], 'after': []},
+    'raise-sync-before-some': {'before': [['faf', 'ok', 1], ['sync', 'raise', 2]], 'after': []},
+    'raise-sync-after': {'before': [], 'after': [['sync', 'raise', 1]]},
+    'raise-faf-before': {'before': [['faf', 'raise', 1]], 'after': [['faf', 'slow-raise', 2]]},
+    'slow-sync-before': {'before': [['sync', 'slow', 1], ['faf', 'slow', 1]], 'after': []},
+    'mixed': {'before': [['faf', 'raise', 1], ['sync', 'slow-raise', 3], ['sync', 'ok', 1]], 'after': [['sync', 'raise', 2]]},
+}
+PRESET_WEIGHTS = [('none', 4), ('healthy', 1), ('raise-sync-before', 3), ('raise-sync-before-some', 2), ('raise-sync-after', 1),
+                  ('raise-faf-before', 1), ('slow-sync-before', 1), ('mixed', 2)]
+
+
+def pick_preset(rng):
+    return rng.choices([n for n, _ in PRESET_WEIGHTS], [w for _, w in PRESET_WEIGHTS])[0]
+
+
+def _define_handlers(core_events):
+    """VerifSyncHandler / VerifFafHandler become attributes of this module so that core.events.init() can load them by path"""
+    class _Base(core_events.Handler):
+        def __init__(self, name=None, mode='ok', period=1):
+            super().__init__(name)
+            self.mode, self.period, self.count = mode, int(period), 0
+
+        async def handle_event(self, event):
+            self.count += 1
+            if self.mode.startswith('slow'):
+                await asyncio.sleep(0)
+                await asyncio.sleep(0)
+            if self.mode.endswith('raise') and self.count % self.period == 0:
+                raise ConnectionError('verif: backend unreachable')
+
+    class VerifSyncHandler(_Base):
+        FIRE_AND_FORGET = False
+
+    class VerifFafHandler(_Base):
+        FIRE_AND_FORGET = True
+
+    globals()['VerifSyncHandler'] = VerifSyncHandler
+    globals()['VerifFafHandler'] = VerifFafHandler
+
+
+async def install_handlers(impl, hcfg):
+    """register the configured handlers and the sessions handler in start-up order"""
+    cfg = HANDLER_PRESETS[hcfg] if isinstance(hcfg, str) else hcfg
+    handlers, sessions = impl.handlers, impl.sessions
+    handlers._registered_handlers[:] = []
+    handlers._enabled = True
+
+    def driver(kind):
+        return __name__ + ('.VerifSyncHandler' if kind == 'sync' else '.VerifFafHandler')
+    saved = impl.settings.event_handlers
+    impl.settings.event_handlers = [
+        {'driver': driver(k), 'name': 'verif-before-%d' % n, 'mode': m, 'period': p} for n, (k, m, p) in enumerate(cfg['before'])]
+    try:
+        await impl.core_events.init()
+    finally:
+        impl.settings.event_handlers = saved
+    if len(handlers._registered_handlers) != len(cfg['before']):
+        raise RuntimeError('core.events.init() did not load the configured handlers')
+    await sessions.init()
+    for n, (k, m, p) in enumerate(cfg['after']):
+        cls = globals()['VerifSyncHandler' if k == 'sync' else 'VerifFafHandler']
+        impl.core_events.register_handler(cls('verif-after-%d' % n, m, p))
+
+
+async def drive(impl, cap, trace, info=None, hcfg='none'):
     """run one trace against the real code.  trace items: ['T', cls, obj] | ['L', sid, level, timeout, now, via_api] | ['K', now]
     -> (outs [(step, rid, [event ids])], final [(sid, [queue ids], level, rid|None, accessed, timeout)], problems [str])"""
     sessions, handlers = impl.sessions, impl.handlers
     classes = impl.classes()
     sessions._sessions_by_id.clear()
-    handlers._registered_handlers[:] = []
-    handlers._enabled = True
-    await sessions.init()
+    await install_handlers(impl, hcfg)
     impl.settings.core.event_queue_size = cap
     impl.clock.now = 0
     loop = asyncio.get_running_loop()
@@ -337,16 +410,24 @@ async def drive(impl, cap, trace, info=None):
         for _rid, task in api_tasks:
             if not task.done():
                 task.cancel()
-        await asyncio.sleep(0)
+        for task in list(handlers._active_handle_tasks):
+            if not task.done():
+                task.cancel()
+        for _ in range(3):
+            await asyncio.sleep(0)
+        for task in list(handlers._active_handle_tasks):
+            if task.done() and not task.cancelled():
+                task.exception()     # retrieved: no "never retrieved" noise at exit
+        handlers._active_handle_tasks.clear()
         sessions._sessions_by_id.clear()
         handlers._registered_handlers[:] = []
         impl.settings.core.event_queue_size = impl.default_queue_size
     return outs, final, problems
 
 
-def run_impl(impl, cap, trace, info=None):
+def run_impl(impl, cap, trace, info=None, hcfg='none'):
     try:
-        return asyncio.run(drive(impl, cap, trace, info))
+        return asyncio.run(drive(impl, cap, trace, info, hcfg))
     except Exception as e:
         return [], [], ['implementation raised %s: %s' % (type(e).__name__, e)]
 
@@ -531,7 +612,13 @@ def classify(rows, trace, outs, kind):
     return {'kind': 'delivery'}
 
 
-def shrink(ctx, impl, rows, cap, trace, kind, budget=14):
+def still_fails(ctx, impl, rows, cap, trace, kind, hcfg):
+    outs, final, _p = run_impl(impl, cap, trace, None, hcfg)
+    _bm, kinds, errors = evaluate(ctx, rows, [(cap, trace, outs, final)], 'c11probe', want_model=False)
+    return bool(kinds) and not errors and kinds[0] == kind
+
+
+def shrink(ctx, impl, rows, cap, trace, kind, budget=14, hcfg='none'):
     """delete events while the implementation still contradicts the specification in the same way"""
     best = trace
     for _round in range(budget):
@@ -550,7 +637,7 @@ def shrink(ctx, impl, rows, cap, trace, kind, budget=14):
             break
         cases = []
         for c in cands:
-            outs, final, problems = run_impl(impl, cap, c)
+            outs, final, problems = run_impl(impl, cap, c, None, hcfg)
             cases.append((cap, c, outs, final))
         _bm, kinds, errors = evaluate(ctx, rows, cases, 'c11shrink', want_model=False)
         if kinds is None or errors:
@@ -570,7 +657,7 @@ def load_corpus():
     for path in sorted(glob.glob(os.path.join(coq.VERIF, 'corpus', ID, '*.json'))):
         with open(path) as f:
             d = json.load(f)
-        out.append((int(d['cap']), [list(x) for x in d['trace']], os.path.basename(path)))
+        out.append((int(d['cap']), [list(x) for x in d['trace']], os.path.basename(path), d.get('handlers', 'none')))
     return out
 
 
@@ -604,19 +691,22 @@ def cross_check(ctx, res, rows):
 
 
 def run_cases(ctx, res, cases, label, rows, report_limit=3):
-    """cases: [(cap, trace, tag)]"""
+    """cases: [(cap, trace, tag[, handler preset])]"""
     impl = Impl.get()
     observed = []
     dist = res['distribution']
     nontrivial = set()
-    for cap, trace, tag in cases:
+    cases = [c if len(c) > 3 else tuple(c) + ('none',) for c in cases]
+    for cap, trace, tag, hcfg in cases:
         info = {}
-        outs, final, problems = run_impl(impl, cap, trace, info)
+        outs, final, problems = run_impl(impl, cap, trace, info, hcfg)
         observed.append((cap, trace, outs, final))
         for p in problems[:3]:
             if len(res['tie_failures']) < 40:
-                res['tie_failures'].append({'note': 'implementation run: ' + p, 'cap': cap, 'trace': describe(rows, trace)})
+                res['tie_failures'].append({'note': 'implementation run: ' + p, 'cap': cap, 'trace': describe(rows, trace),
+                                            'handlers': hcfg})
         dist['traces'] = dist.get('traces', 0) + 1
+        dist['handlers:%s' % hcfg] = dist.get('handlers:%s' % hcfg, 0) + 1
         dist['events'] = dist.get('events', 0) + len(trace)
         for st in trace:
             k = {'T': 'op:trigger', 'L': 'op:listen', 'K': 'op:tick'}[st[0]]
@@ -653,7 +743,7 @@ def run_cases(ctx, res, cases, label, rows, report_limit=3):
             cap, trace, outs, final = observed[j]
             res['tie_failures'].append({'note': 'model differs from implementation (answers or final state)', 'cap': cap,
                                         'trace': describe(rows, trace), 'answers': outs, 'final_sessions': final,
-                                        'source': cases[j][2]})
+                                        'source': cases[j][2], 'handlers': cases[j][3]})
         if bad_model:
             dist['model_mismatches'] = dist.get('model_mismatches', 0) + len(bad_model)
     bad = [j for j, k in enumerate(kinds) if k]
@@ -668,9 +758,14 @@ def run_cases(ctx, res, cases, label, rows, report_limit=3):
             continue
         j = min(js, key=lambda j: len(observed[j][1]))
         cap, trace, outs, final = observed[j]
-        small = shrink(ctx, impl, rows, cap, trace, kind)
-        outs, final, _p = run_impl(impl, cap, small)
+        hcfg = cases[j][3]
+        if hcfg != 'none' and still_fails(ctx, impl, rows, cap, trace, kind, 'none'):
+            hcfg = 'none'      # the other handlers have nothing to do with it
+        small = shrink(ctx, impl, rows, cap, trace, kind, hcfg=hcfg)
+        outs, final, _p = run_impl(impl, cap, small, None, hcfg)
         key = classify(rows, small, outs, kind)
+        if hcfg != 'none':
+            key['handlers'] = hcfg
         exp = None
         try:
             exp = expected_text(ctx, rows, (cap, small, outs, final))
@@ -680,9 +775,10 @@ def run_cases(ctx, res, cases, label, rows, report_limit=3):
                 if kind == 1 else 'delivery: the answers differ from the specified ones (content / order / step)')
         res['violations'].append({
             'key': key,
-            'what': '%s. cap=%d trace: %s ; observed answers (step, request, event ids): %s'
-                    % (what, cap, describe(rows, small), outs),
-            'case': {'cap': cap, 'trace': small, 'event_types': [r['type'] for r in rows],
+            'what': '%s. cap=%d other event handlers: %s ; trace: %s ; observed answers (step, request, event ids): %s'
+                    % (what, cap, hcfg if hcfg == 'none' else '%s %s' % (hcfg, json.dumps(HANDLER_PRESETS[hcfg])),
+                       describe(rows, small), outs),
+            'case': {'cap': cap, 'trace': small, 'handlers': hcfg, 'event_types': [r['type'] for r in rows],
                      'original_length': len(trace), 'source': cases[j][2], 'count_in_this_batch': len(js)},
             'expected': {'answers_per_session (sid, [(step, request, event ids)])': exp},
             'observed': {'answers': outs, 'final_sessions': final},
@@ -700,8 +796,10 @@ def check(ctx, res):
         'random traces of 1-50 events over 1-4 session ids: Trigger of every concrete event class (update classes and '
         'admin-only classes weighted up, 1-3 objects), Listen with level in {0,10,20,30} and timeout in {0,1,2,5,60} (half '
         'through the API function get_listen), Tick with clock steps 0..601 s (3% backwards); event_queue_size 4 in 55% of '
-        'the traces, else 1/2/3/8/1024. distinct = distinct (cap, trace); non-trivial = at least one non-empty answer and two '
-        'listens on the same session id'
+        'the traces, else 1/2/3/8/1024; every trace runs under one of 8 configurations of *other* event handlers (none / healthy / '
+        'raising or slow, synchronous or fire-and-forget, configured before the sessions handler through settings.event_handlers + '
+        'core.events.init() as at start-up, or registered after it) - the expected answers do not depend on it. '
+        'distinct = distinct (cap, trace); non-trivial = at least one non-empty answer and two listens on the same session id'
     )
     impl, rows = _prepare(ctx, res)
     cross_check(ctx, res, rows)
@@ -710,7 +808,7 @@ def check(ctx, res):
         with open(ctx.replay) as f:
             d = json.load(f)
         c = d.get('case', d)
-        run_cases(ctx, res, [(int(c['cap']), [list(x) for x in c['trace']], 'replay')], 'replay', rows)
+        run_cases(ctx, res, [(int(c['cap']), [list(x) for x in c['trace']], 'replay', c.get('handlers', 'none'))], 'replay', rows)
         return
     corpus = load_corpus()
     if corpus:
@@ -721,7 +819,7 @@ def check(ctx, res):
     done = 0
     while done < n:
         k = min(batch, n - done)
-        cases = [gen_trace(ctx.rng, len(rows), weights) + ('random',) for _ in range(k)]
+        cases = [gen_trace(ctx.rng, len(rows), weights) + ('random', pick_preset(ctx.rng)) for _ in range(k)]
         run_cases(ctx, res, cases, 'rnd%d' % done, rows)
         done += k
         if res['violations'] and done >= 2000:
@@ -729,7 +827,8 @@ def check(ctx, res):
     if ctx.tier == 'thorough' and not res['violations']:
         ss = small_scope(rows, 5)
         for i in range(0, len(ss), 6000):
-            run_cases(ctx, res, [(c, t, 'small-scope') for c, t in ss[i:i + 6000]], 'ss%d' % i, rows)
+            run_cases(ctx, res, [(c, t, 'small-scope', 'none' if n % 3 else 'mixed') for n, (c, t) in enumerate(ss[i:i + 6000])],
+                      'ss%d' % i, rows)
         res['exhaustive'] = True
         res['extra']['small_scope'] = ('all %d traces of <= 5 letters over the alphabet {Trigger port-update / device-update / '
                                        'value-change, Listen sid in {0,1} x level in {10,30} (timeout 1), Tick +2 s, Tick +25 s}, '
@@ -741,18 +840,24 @@ def search(ctx, res):
     impl, rows = _prepare(ctx, res)
     weights = class_weights(rows)
     ss = small_scope(rows, 4)
-    run_cases(ctx, res, [(c, t, 'small-scope') for c, t in ss], 'srch_ss', rows)
+    for preset in ('none', 'raise-sync-before', 'mixed'):
+        run_cases(ctx, res, [(c, t, 'small-scope', preset) for c, t in ss], 'srch_ss_' + preset, rows)
+        if res['violations']:
+            return
     if res['violations']:
         return
     n = ctx.n(20000, 200000)
     done = 0
     while done < n and not res['violations']:
-        cases = [gen_trace(ctx.rng, len(rows), weights, max_len=ctx.rng.choice([8, 20, 50])) + ('random',) for _ in range(4000)]
+        cases = [gen_trace(ctx.rng, len(rows), weights, max_len=ctx.rng.choice([8, 20, 50])) + ('random', pick_preset(ctx.rng))
+                 for _ in range(4000)]
         run_cases(ctx, res, cases, 'srch%d' % done, rows)
         done += 4000
 
 
-REPLAY_HELP = ('bin/check C11 --replay <this file>   (or by hand, PYTHONPATH=/repo: sessions.init(); per item of case.trace: '
+REPLAY_HELP = ('bin/check C11 --replay <this file>   (or by hand, PYTHONPATH=/repo: case.handlers names an entry of HANDLER_PRESETS in '
+               'harness/props/c11.py: its "before" handlers go to settings.event_handlers, then core.events.init(); sessions.init(); '
+               'then register its "after" handlers; per item of case.trace: '
                '["T", k, obj] -> await core.events.trigger(<class number k of case.event_types>(fake port/slave obj)); '
                '["L", sid, level, timeout, now, _] -> sessions.get("sess-<sid>").reset_and_wait(timeout, level) with time.time() = now; '
                '["K", now] -> sessions.update() with time.time() = now; settings.core.event_queue_size = case.cap)')
